@@ -69,7 +69,7 @@ def canonical(framing, spec, fill=0x5A):
     tx = b'\x00\x09'
     if framing == 'aa55':
         n = spec[3] if len(spec) > 3 else 6
-        return wire.aa55_resp(spec[2], bytes((fill + i) & 0xFF for i in range(n)))
+        return wire.aa55_resp(spec[2] or '0186', bytes((fill + i) & 0xFF for i in range(n)))      # ('' = command without an expected type)
     if k == 'read':
         pl = bytes((fill + 3 * i) & 0xFF for i in range(2 * spec[2]))
         return wire.rtu_read_resp(UNIT, pl) if framing == 'rtu' else wire.tcp_read_resp(tx, UNIT, pl)
@@ -105,7 +105,7 @@ def crc_variants(body, header):
 def gen_grammar(framing, spec):
     k = spec[0]
     if framing == 'aa55':
-        want = bytes.fromhex(spec[2])
+        want = bytes.fromhex(spec[2]) or b'\x01\x86'
         for hdr in (b'\xaa\x55\x7f\xc0', b'\xaa\x55\xc0\x7f', b'\x00\x00\x00\x00'):
             for rt in (want, b'\x01\x86', b'\x01\x82', b'\x01\xff', bytes([want[0] | 0x80, want[1]]), bytes([want[1], want[0]])):
                 for n in (0, 1, 2, 40, 140, 255):
@@ -171,7 +171,8 @@ def gen_small_scope(framing, spec, maxlen):
 def specs_for(framing, tier):
     if framing == 'aa55':
         return [('aa55', '010600', '0186'), ('aa55', '010200', '0182'), ('aa55', '010900', '0189'),
-                ('aa55', '011a03070104', '019A'), ('aa55', '02390507010100ff', '02B9'), ('aa55', '03590100', '03D9')]
+                ('aa55', '011a03070104', '019A'), ('aa55', '02390507010100ff', '02B9'), ('aa55', '03590100', '03D9'),
+                ('aa55', '010600', '')]       # (the validator supports commands that expect no particular response type)
     counts = list(range(1, 126)) if tier == 'thorough' else [1, 2, 61, 124, 125]
     out = [('read', 0x891C, c) for c in counts]
     regs = [0, 1, 0x7FFF, 0x8000, 0xFFFF, 47511] if tier == 'thorough' else [0, 0x8000, 47511]
